@@ -23,6 +23,7 @@ type c01Op struct {
 	On   bool   `json:"on,omitempty"`
 	Mode int    `json:"mode,omitempty"`
 	CV   int    `json:"ctx_variant,omitempty"` // which variant of the program's context this render uses
+	Rep  int    `json:"rep,omitempty"`         // render ops: this many further identical renders follow at once (a busy, long-lived engine)
 }
 
 type c01Sc struct {
@@ -93,6 +94,10 @@ func (propC01) Gen(seed uint64, ex map[string]bool) interface{} {
 				// render some other template of the program directly (a base layout, a partial, the macro library)
 				ts := sc.Progs[p].Templates
 				op.Name = ts[r.N(len(ts))].Name
+			}
+			if r.P(6) {
+				// a burst: limits, counters and free lists that only overflow after dozens of calls
+				op.Rep = pick(r, []int{8, 17, 33, 40, 65, 70, 130})
 			}
 			sc.Ops = append(sc.Ops, op)
 		case c < 13:
@@ -354,6 +359,17 @@ func (propC01) Run(scI interface{}) *Outcome {
 				return fail("O1-pristine-replica", fmt.Sprintf("render differs from fresh engine: history=%s fresh=%s", got.Class, want.Class),
 					fmt.Sprintf("op #%d %s engine %d template %q\n history engine: %s\n fresh engine:   %s", oi, op.K, op.E, prMain, got, want))
 			}
+			for rep := 0; rep < op.Rep; rep++ {
+				// identical calls in a row: every one of them must still equal the fresh engine's answer
+				spr := newSpies()
+				ce.hub.per[0] = spr
+				again := observe(spr, func() (string, error) { return ce.e.Render(prMain, BuildCtx(pr.Ctx.Variant(op.CV), 0)) })
+				o.Probes["burst_renders"]++
+				if again.Key() != want.Key() {
+					return fail("O1-pristine-replica", fmt.Sprintf("render differs from fresh engine: history=%s fresh=%s", again.Class, want.Class),
+						fmt.Sprintf("op #%d %s engine %d template %q, identical call number %d in a row\n history engine: %s\n fresh engine:   %s", oi, op.K, op.E, prMain, rep+2, again, want))
+				}
+			}
 			// O3: a sample is also rendered by a real fresh process built from the uninstrumented tree
 			if os.Getenv("VERIF_ONESHOT") != "" && w.Choose(24, "o3.sample") == 0 {
 				// (the fresh process runs the uninstrumented tree with Go's own map order; since C03's fixes the
@@ -471,6 +487,18 @@ func (propC01) Shrink(scI interface{}) []interface{} {
 			c := clone()
 			c.Ops = append(c.Ops[:at], c.Ops[at+size:]...)
 			out = append(out, c)
+		}
+	}
+	// shorter bursts
+	for i, op := range sc.Ops {
+		if op.Rep > 0 {
+			for _, n := range []int{0, op.Rep / 2, op.Rep - 1} {
+				if n < op.Rep {
+					c := clone()
+					c.Ops[i].Rep = n
+					out = append(out, c)
+				}
+			}
 		}
 	}
 	// drop template segments
